@@ -19,6 +19,26 @@ func chance(rt *rapid.T, label string, num, den int) bool {
 
 func nid(i int) string { return fmt.Sprintf("n%d", i) }
 
+// nameScheme draws how node indices become ID strings: n<i> (default), bare decimals of mixed length ("7", "12": string
+// concatenations and lexicographic comparisons of such IDs collide / reorder - seeded/r2-m14, r2-m08), or letters.
+// None of the schemes can produce a helper-like ID (V<k>, NE<i>).
+func nameScheme(rt *rapid.T) func(int) string {
+	switch pick(rt, "id_scheme", 5) {
+	case 0, 1, 2:
+		return nid
+	case 3:
+		return func(i int) string { return fmt.Sprint(i) }
+	default:
+		return func(i int) string {
+			s := ""
+			for i++; i > 0; i = (i - 1) / 26 {
+				s = string(rune('a'+(i-1)%26)) + s
+			}
+			return s
+		}
+	}
+}
+
 // ---------------------------------------------------------------------------------------------------------
 // Graph families. Each returns edges over node indices; IDs are attached afterwards.
 
@@ -262,7 +282,7 @@ func genBundle(rt *rapid.T, sp GraphSpec) (int, []iedge) {
 	}
 	n, es := genFamily(rt, fam, GraphSpec{MaxN: 6, MaxM: 8, SelfLoops: false, Parallel: true})
 	k := rapid.IntRange(2, 6).Draw(rt, "bundle_k")
-	if chance(rt, "bundle_huge", 1, 3) {
+	if sp.MaxM >= 16 && chance(rt, "bundle_huge", 1, 3) { // never under a spec that asks for tiny graphs
 		k = rapid.IntRange(250, 300).Draw(rt, "bundle_k_huge")
 	}
 	e := es[pick(rt, "bundle_edge", len(es))]
